@@ -48,7 +48,8 @@ Seeds == <<
   (*14*) << I("g"), P(":"), P(":"), P("<"), I("T"), P(">"), O("("), I("x"), C(")"), P(";") >>,
   (*15*) << I("if"), I("a"), P(">"), O("("), I("x"), C(")"), O("{"), C("}") >>,
   (*16*) << I("enum"), I("E"), O("{"), I("A"), P(":"), O("("), I("u64"), C(")"), P(","), C("}") >>,
-  (*17*) << I("x"), P("="), I("a"), P("+"), O("("), I("b"), P("-"), I("c"), C(")"), P(";") >>
+  (*17*) << I("x"), P("="), I("a"), P("+"), O("("), I("b"), P("-"), I("c"), C(")"), P(";") >>,
+  (*18*) << I("enum"), I("E"), O("{"), I("A"), P(":"), O("("), I("G"), P("<"), I("a"), P(","), I("b"), P(">"), C(")"), P(","), C("}") >>
 >>
 
 S(n) == Seeds[n]
@@ -64,7 +65,8 @@ MustAccept == {
     <<S(11), << I("use"), I("a"), P(":"), P(":"), O("{"), I("b"), P(","), I("c"), C("}"), P(";") >> >>,  \* sorted
     <<S(13), << I("fn"), I("f"), P("<"), I("T"), P(">"), O("("), I("x"), C(")"), I("where"), I("T"), P(":"), I("A"), P(","), O("{"), C("}") >> >>,
     <<S(14), << I("g"), P(":"), P(":"), P("<"), I("T"), P(">"), O("("), I("x"), P(","), C(")"), P(";") >> >>,
-    <<S(16), << I("enum"), I("E"), O("{"), I("A"), P(":"), I("u64"), P(","), C("}") >> >> }
+    <<S(16), << I("enum"), I("E"), O("{"), I("A"), P(":"), I("u64"), P(","), C("}") >> >>,
+    <<S(18), << I("enum"), I("E"), O("{"), I("A"), P(":"), I("G"), P("<"), I("a"), P(","), I("b"), P(">"), P(","), C("}") >> >> }
 
 \* meaning-changing edits: must be rejected
 MustReject == {
@@ -76,7 +78,8 @@ MustReject == {
     <<S(1), << I("f"), O("("), C(")"), P(";") >> >>,                                        \* dropped argument
     <<S(11), << I("use"), I("a"), P(":"), P(":"), I("c"), P(";") >> >>,                     \* dropped import
     <<S(5), << I("t"), P("="), O("("), I("y"), P(","), I("x"), C(")"), P(";") >> >>,        \* swapped elements
-    <<S(1), << I("f"), O("("), P(","), I("x"), C(")"), P(";") >> >> }
+    <<S(1), << I("f"), O("("), P(","), I("x"), C(")"), P(";") >> >>,
+    <<S(5), << I("t"), P("="), I("x"), P(","), I("y"), P(";") >> >> }                            \* tuple parens dropped
 
 EditAlphabet == { P(","), O("("), C(")"), O("{"), C("}"), I("x"), I("b"), P(";") }
 
@@ -144,7 +147,7 @@ TupleCount(s) ==
     LET p == Partners(s) IN
     Cardinality({ o \in DOMAIN s : /\ s[o] = LParen /\ p[o] > o
                                   /\ ~CallLike(s, p, o)
-                                  /\ TopComma(s, p, o + 1, p[o]) })
+                                  /\ TopCommaInType(s, p, o + 1, p[o], 0) })   \* `,` in `<..>` is not a tuple comma
 TuplesPreserved == Related => TupleCount(cin) = TupleCount(cout)
 
 B2N(b) == IF b THEN 1 ELSE 0
